@@ -21,6 +21,9 @@
                             | (3, []) ParseError | (4, []) out of fuel | (9, []) ill-formed tokens
    * run_lang fallback prune ... rounds: (closed, files): the files reached by the language's rules after
      `rounds` rounds of closure, sorted without duplicates; closed = the closure is complete.
+   * run_tame ... rounds: (closed, tame): closed as above for the pruned closure (fallback = prune = true);
+     tame = the tree satisfies the hypotheses Tame of Props.v (then resolve_sound_complete etc. apply).
+     8 rounds close every tree of file-nesting + inline-nesting depth <= 8.
    Instead of tokens, constructor terms can be given to run_resolve_t / run_lang_t directly
    (ModDecl n (mkAttrs (Some [CRs 1]) [] false), ...). *)
 From V Require Import Base.Text C13.Model.
